@@ -1336,3 +1336,143 @@ impl Part for E2aTlc {
         out
     }
 }
+
+// ------------------------------------------------------------------------------------------------
+// Long runs on ONE context: counters hidden in a context (failures seen, messages seen) only show after
+// many operations - far beyond the depth of the history trees
+// ------------------------------------------------------------------------------------------------
+
+#[derive(Clone, Debug, Serialize, Deserialize)]
+pub enum LongCase {
+    /// `n` rejected deliveries of mixed kinds on one receiver, then the genuine next message
+    Failures { suite: SuiteId, start: u64, n: u64 },
+    /// `n` accepted messages in a row on one receiver (and sealed by one sender), alternating the APIs
+    Successes { suite: SuiteId, start: u64, n: u64 },
+}
+
+pub struct LongRuns {
+    pub suites: Vec<SuiteId>,
+    pub n_fail: u64,
+    pub n_ok: u64,
+}
+
+impl Part for LongRuns {
+    type Case = LongCase;
+    fn name(&self) -> String {
+        "E2c-long-runs".into()
+    }
+    fn rule(&self) -> String {
+        "one live receiver context is handed n rejected deliveries (tampered, short, wrong aad, garbage, future, replay - both APIs) and must then still accept exactly the next genuine message with its counter unmoved; one live sender/receiver pair exchanges n messages in a row, every ciphertext compared with R1 and the counters read back at the end; n is above 2^16 so that an 8- or 16-bit bookkeeping counter would wrap (overflow checks are on in the primary build)".into()
+    }
+    fn bound(&self, _cfg: &Cfg) -> String {
+        format!("{} rejected deliveries / {} accepted messages per context, {} suites, 2 start positions", self.n_fail, self.n_ok, self.suites.len())
+    }
+    fn rerun_check(&self) -> bool {
+        false
+    }
+    fn enumerate(&self, _cfg: &Cfg) -> Vec<LongCase> {
+        let mut v = vec![];
+        for &suite in &self.suites {
+            for start in [0u64, (1u64 << 32) - 70_000] {
+                v.push(LongCase::Failures { suite, start, n: self.n_fail });
+                v.push(LongCase::Successes { suite, start, n: self.n_ok });
+            }
+        }
+        v
+    }
+    fn run(&self, cfg: &Cfg, c: &LongCase) -> CaseOut {
+        let mut out = CaseOut::new();
+        out.nontrivial = true;
+        let suite = match c {
+            LongCase::Failures { suite, .. } | LongCase::Successes { suite, .. } => *suite,
+        };
+        let fx = match Fixture::new(suite, Mode::Base, cfg.seed) {
+            Ok(f) => f,
+            Err(e) => {
+                out.fail_machinery(e);
+                return out;
+            }
+        };
+        match c {
+            LongCase::Failures { start, n, .. } => {
+                out.outcome = format!("failures/{}", suite.aead.name());
+                let mut r = match receiver_at(&fx, Some(*start)) {
+                    Ok(r) => r,
+                    Err(e) => {
+                        out.fail(e);
+                        return out;
+                    }
+                };
+                let corrs = [Corr::FlipCt, Corr::ShortTag, Corr::WrongAad, Corr::Zeros, Corr::FlipTag, Corr::Empty, Corr::Append];
+                // the deliveries are built once per kind; the receiver sees them over and over
+                let ds: Vec<(Delivery, Api)> = corrs
+                    .iter()
+                    .flat_map(|&k| [Api::Alloc, Api::InPlace].into_iter().map(move |a| (k, a)))
+                    .map(|(k, a)| (deliver_bytes(&fx, *start, start.wrapping_add(1), k, a), a))
+                    .chain([(deliver_bytes(&fx, start.wrapping_add(1), *start, Corr::None, Api::Alloc), Api::Alloc)])
+                    .collect();
+                for i in 0..*n {
+                    let (d, api) = &ds[(i % ds.len() as u64) as usize];
+                    let got = match api {
+                        Api::Alloc => r.open(&d.wire, &d.aad).map(|_| ()),
+                        Api::InPlace => {
+                            let mut b = d.body.clone();
+                            r.open_ip(&mut b, &d.aad, &d.tag)
+                        }
+                    };
+                    out.transitions += 1;
+                    if got != Obs::Err(HpkeError::OpenError) {
+                        out.fail(format!("rejected delivery #{} on one receiver context: got {} want Err(OpenError)", i, got.class()));
+                        return out;
+                    }
+                }
+                if r.seq_state() != (*start, false) {
+                    out.fail(format!("after {} rejected deliveries the receiver's sequence state is {:?}, want ({}, false)", n, r.seq_state(), start));
+                }
+                let d = deliver_bytes(&fx, *start, start.wrapping_add(1), Corr::None, Api::Alloc);
+                run_delivery(&mut out, &fx, r.as_mut(), Some(*start), &d, Api::Alloc, Some(Expect::OpenOk(0)), &format!("the genuine message after {} rejected deliveries", n));
+            }
+            LongCase::Successes { start, n, .. } => {
+                out.outcome = format!("successes/{}", suite.aead.name());
+                let (mut s, mut r) = match (sender_at(&fx, Some(*start)), receiver_at(&fx, Some(*start))) {
+                    (Ok(s), Ok(r)) => (s, r),
+                    (Err(e), _) | (_, Err(e)) => {
+                        out.fail(e);
+                        return out;
+                    }
+                };
+                for i in 0..*n {
+                    let p = start + i;
+                    let aad = (p as u32).to_le_bytes();
+                    let pt = [b'm', (i % 251) as u8];
+                    let want = fx.refctx.seal_at(p as u128, &aad, &pt);
+                    out.transitions += 2;
+                    let ct = if i % 2 == 0 {
+                        s.seal(&pt, &aad)
+                    } else {
+                        let mut b = pt.to_vec();
+                        s.seal_ip(&mut b, &aad).map(|t| [&b[..], &t[..]].concat())
+                    };
+                    if ct != Obs::Ok(want.clone()) {
+                        out.fail(format!("message #{} of a long run (sequence number {}): ciphertext differs from R1: {}", i, p, ct.class()));
+                        return out;
+                    }
+                    let got = if i % 3 == 0 {
+                        let mut b = want[..want.len() - fx.nt()].to_vec();
+                        r.open_ip(&mut b, &aad, &want[want.len() - fx.nt()..]).map(|_| b.clone())
+                    } else {
+                        r.open(&want, &aad)
+                    };
+                    if got != Obs::Ok(pt.to_vec()) {
+                        out.fail(format!("message #{} of a long run (sequence number {}) does not open: {}", i, p, got.class()));
+                        return out;
+                    }
+                }
+                if s.seq_state() != (start + n, false) || r.seq_state() != (start + n, false) {
+                    out.fail(format!("after {} messages the sequence states are S{:?} R{:?}, want ({}, false)", n, s.seq_state(), r.seq_state(), start + n));
+                }
+            }
+        }
+        out
+    }
+}
